@@ -50,6 +50,8 @@ type vfGrpCase struct {
 	C12       *vfC12Ctl            `json:"c12,omitempty"`
 	Retention bool                 `json:"retention,omitempty"` // Consumer.Offsets.Retention set: commits go out as OffsetCommit v2
 	RetryMax  *int                 `json:"retryMax,omitempty"`  // Consumer.Group.Rebalance.Retry.Max (nil = 4)
+	OffRetry  *int                 `json:"offRetry,omitempty"`  // Consumer.Offsets.Retry.Max (nil = the default 3); 0 = the final commit gets one attempt
+	SlowTick  bool                 `json:"slowTick,omitempty"`  // auto-commit interval of an hour: only the final commit of a session commits
 }
 
 type vfGrpEvent struct {
@@ -153,6 +155,10 @@ func vfGenGrpCase(t *rapid.T) *vfGrpCase {
 	if rm := rapid.SampledFrom([]int{4, 4, 4, 1, 0, 0}).Draw(t, "rebalanceRetryMax"); rm != 4 {
 		c.RetryMax = &rm
 	}
+	if om := rapid.SampledFrom([]int{3, 3, 0, 1}).Draw(t, "offsetsRetryMax"); om != 3 {
+		c.OffRetry = &om
+	}
+	c.SlowTick = rapid.IntRange(0, 3).Draw(t, "slowTicker") == 0
 	nT := rapid.IntRange(1, 2).Draw(t, "nTopics")
 	for ti := 0; ti < nT; ti++ {
 		nP := rapid.IntRange(1, 4).Draw(t, fmt.Sprintf("t%d.parts", ti))
@@ -305,6 +311,12 @@ func (c *vfGrpCase) config(run *vfGrpRun, m int) *Config {
 	conf.Consumer.Offsets.AutoCommit.Interval = 2 * time.Millisecond
 	if c.Retention {
 		conf.Consumer.Offsets.Retention = 90 * time.Second
+	}
+	if c.OffRetry != nil {
+		conf.Consumer.Offsets.Retry.Max = *c.OffRetry
+	}
+	if c.SlowTick {
+		conf.Consumer.Offsets.AutoCommit.Interval = time.Hour
 	}
 	conf.Consumer.Group.Session.Timeout = 200 * time.Millisecond
 	conf.Consumer.Group.Heartbeat.Interval = 3 * time.Millisecond
@@ -783,6 +795,10 @@ func vfOracleGrp(run *vfGrpRun, r *vfcore.Rec) *vfcore.Failure {
 	if c.RetryMax != nil {
 		r.Classf("rebalanceRetryMax=%d", *c.RetryMax)
 	}
+	if c.OffRetry != nil {
+		r.Classf("offsetsRetryMax=%d", *c.OffRetry)
+	}
+	r.Classf("slowTicker=%v", c.SlowTick)
 	r.Classf("members=%d", len(c.Members))
 	r.Classf("sessions=%d", sessions)
 	if disturbed {
